@@ -682,3 +682,13 @@ def _shaped_attr(i, v, name, node, fr):
             return len(v.shape)
         raise Unsupported("attribute %s of an array whose contents are not modelled" % name, node)
     return NotImplemented
+
+
+@hook("isinstance")
+def _isinstance_ndarray(i, v, cls, node):
+    if isinstance(cls, ModuleRef) and cls.dotted == "numpy.ndarray":
+        if isinstance(v, Arr):
+            return True
+        if isinstance(v, (int, float, bool, str)) or is_z3(v):
+            return False  # scalars (python numbers / symbolic scalars) are not arrays
+    return NotImplemented
